@@ -32,7 +32,14 @@ func c08Legs(tier, o string) []pairLeg {
 			add("K2same", Keyed2Same())
 		} else {
 			// ids that print alike (1 / "1", true / "true"), structured ids; two members each
-			add("Kstr", thin(KeyedStr().Filter(func(v V) bool { return len(v.([]interface{})) == 2 }), 90))
+			two := KeyedStr().Filter(func(v V) bool { return len(v.([]interface{})) == 2 })
+			alike := func(v V) bool { // both members' ids print the same: 1 / "1", true / "true"
+				m := v.([]interface{})
+				a, b := m[0].(map[string]interface{})["id"], m[1].(map[string]interface{})["id"]
+				return fmt.Sprint(a) == fmt.Sprint(b)
+			}
+			add("Kalike", two.Filter(alike))
+			add("Kstr", thin(two.Filter(func(v V) bool { return !alike(v) }), 70))
 		}
 		keys := []string{"id"}
 		if two {
